@@ -151,6 +151,43 @@ def _false_edges_of_returned_bool(f, c):
     return out
 
 
+def _flag_index_in_ok_tuple(ret, name):
+    """Index of the variable `name` in the tuple a function returns inside Ok (origin of its return place, variables kept as names); None when there is not
+    exactly one such position."""
+    ix = set()
+    for a in flow.top_alternatives(ret):
+        if a[0] == 'agg' and a[1].endswith('Result::Ok') and len(a[2]) == 1 and a[2][0][0] == 'agg' and a[2][0][1] == 'tuple':
+            for n, x in enumerate(a[2][0][2]):
+                if x[0] == 'var' and x[2] == name:
+                    ix.add(n)
+    return ix.pop() if len(ix) == 1 else None
+
+
+def _true_edges_of_returned_component(f, c, ix):
+    """Edges on which component `ix` of the tuple that call `c` returned in its Ok value (through `?` or an explicit match) is true: switches on a bool whose fully
+    expanded origin is `.ix` of the payload of that very call — so `let (n, flag) = call?; if flag`, `let out = call?; if out.1` and `if !out.1 {} else {..}` are one
+    thing.  Between the call and the tuple component only variant downcasts / payload fields are looked through (the Ok payload is the tuple itself)."""
+    if ix is None:
+        return []
+    of = flow.Origin(f)
+    out = []
+    for i, blk in enumerate(f.blocks):
+        t = blk['t']
+        if t['k'] != 'switch' or t.get('onty') != 'bool' or i not in f.live_blocks():
+            continue
+        e = of.of_operand(t['on'])
+        while e[0] == 'un' and e[1] == 'Not':
+            e = e[2]
+        if not (e[0] == 'field' and e[2] == '.%d' % ix):
+            continue
+        e = e[1]
+        while e[0] == 'downcast' or (e[0] == 'field' and isinstance(e[2], str) and not e[2].startswith(('.', '^'))):
+            e = e[1]
+        if e[0] == 'call' and len(e) > 3 and e[3] is c:
+            out += [(i, tg) for tg, p in flow.switch_edge_predicates(f, i, of) if p.startswith('bool[')]
+    return out
+
+
 def run(ctx, prog):
     ctx.not_decided = ['numeric soundness of insert_can_affect_cached_boundary (prefix / tail-norm bound in f32; R9 decides only that both sides use one split of the vector)',
                        'the store/invalidate race itself — only its generation guard']
@@ -252,6 +289,8 @@ def run(ctx, prog):
         ret = flow.render(ov.of_local(0))
         ctx.inst('C07.R1', rc.short, 'repair insert ⇒ should_clear_query_cache = true, returned', bool(sets) and not bad and 'var:should_clear_query_cache' in ret,
                  'flag set on every path after a successful repair: %s; returned value: %s' % (not bad, ret[:140]))
+        # position of the flag in the tuple the repair returns inside Ok: the caller may read it in place (`outcome.1`) instead of binding it to a bool local
+        flag_ix = _flag_index_in_ok_tuple(ov.of_local(0), 'should_clear_query_cache')
         for caller in prog.callers_of('TieredEngine::reconcile_drained_hot_tier_documents'):
             cb = caller.body
             util.bind_role(cb, 'should_clear_query_cache', type_rx=r'^bool$', assigned_from=r'TieredEngine::reconcile_drained_hot_tier_documents')
@@ -262,6 +301,10 @@ def run(ctx, prog):
                     for tg, p in flow.switch_edge_predicates(cb, i, cv):
                         if p == 'bool[var:should_clear_query_cache]':
                             t_edges.append((i, tg))
+            # …and, independently of any name: the true edges of every switch whose operand IS that component of this call's Ok value (fully expanded origin)
+            for e_ in _true_edges_of_returned_component(cb, caller, flag_ix):
+                if e_ not in t_edges:
+                    t_edges.append(e_)
             clr = eff.blocks(cb, 'qc_clear')
             ok = bool(t_edges) and bool(clr)
             if ok:
